@@ -79,7 +79,6 @@ Next ==
           [] e.ev = "finish" ->
               LET gg == [g EXCEPT !.fin = @ \cup {e.i}] IN
               /\ Bump(7)
-              /\ Check(e.done = 1, "TOOL", "decode-did-not-finish", l, e.i)
               /\ Judge(gg, e, g.shown)
               /\ Expect(e.pending = Len(gg.pend) /\ Tickets(e.shown) = gg.shown, "finish", l, [pending |-> e.pending])
               /\ g' = [gg EXCEPT !.del = DelC(gg, Tickets(e.shown)), !.shown = Tickets(e.shown)]
